@@ -46,7 +46,10 @@ def _make_paired_pattern(open_re: str, close_re: str, middle_char: str) -> str:
 # Inline code spans with backticks (handles multi-backtick like ``code``)
 INLINE_CODE_SPAN = AtomicPattern(
     name="inline_code_span",
-    pattern=r"(`+)(?:(?!\1).)+\1",
+    # The opening run is a whole run of backticks (not a part of a longer one): otherwise a
+    # long run without a closing run is retried at every position and every length, which
+    # takes cubic time (1000 backticks: 7 s).
+    pattern=r"(?<!`)(`+)(?!`)(?:(?!\1).)+\1",
     open_delim="",
     close_delim="",
     open_re="",
